@@ -411,8 +411,8 @@ def main(argv):
                              "piece_hex": hexs(bad[0]) if bad else ""})
                 break
 
-    if c.tier == "thorough":
-        asan_lines(c, "hx_utf8", lines, "(exact-size heap buffers)")
+    # ASan/UBSan build of the harness: buffers are exact-size heap blocks, so any read past `end` is reported
+    asan_lines(c, "hx_utf8", lines if c.tier == "thorough" else lines[:70000] + lines[-3000:], "(exact-size heap buffers)")
 
     shutil.rmtree(SCRATCH, ignore_errors=True)
     return c.finish(level="proof",
